@@ -118,7 +118,7 @@ def abstract_episode(ep: List[Dict[str, Any]]) -> Tuple[Optional[List[Dict[str, 
         return [(_code(x) if _code(x) is not None else 0) for x in vec]
 
     cfg = {'min': en['min'], 'max': maxi, 'tol': 1, 'failures': failures, 'errors': errors, 'cfe': bool(en['cfe']),
-           'L': en['L'], 't': en['t'], 'offset': en['offset'], 'c0': abs0(c0), 'src': abs0(src if src is not None else c0),
+           'L': en['L'], 't': en['t'], 'lags': int(en.get('lags', 0)), 'leads': int(en.get('leads', 0)), 'offset': en['offset'], 'c0': abs0(c0), 'src': abs0(src if src is not None else c0),
            'st0': en['st0'], 'it0': en['it0']}
     out = [{'ev': 'enter', 'cfg': cfg}]
     # solver's remembered vector, per the specification
